@@ -871,9 +871,13 @@ class DatasetBuilder:
         assert isinstance(values, pa.FixedSizeListArray)
         v_valid = values.is_valid().to_numpy(zero_copy_only=False)
 
-        # no nulls: use as-is
+        # no nulls: every entity has a vector, put them in table order
         if np.all(valid) and np.all(v_valid):
-            return values
+            order = np.argsort(rows.to_numpy(), kind="stable")
+            self.schema.entities[cls].attributes[name] = ColumnSpec(
+                layout=AttrLayout.VECTOR, vector_size=values.type.list_size
+            )
+            return values.take(pa.array(order))
 
         # find the rows where we have a valid column value
         c_valid = valid.copy()
